@@ -1,3 +1,4 @@
+import re
 """Registry of obligations: obligation id -> property, back end, unit, tier, level, bound.
 One entry per machine-checked contract. `level` is "proof" (complete: loop-free full-domain Kani
 harness, or unbounded Verus unit) or "bounded" (bound stated in `bound`; never counted as proved)."""
@@ -333,6 +334,13 @@ NOT_APPLICABLE = {
     "C04": "reclamation of garbage and the emptiness of the heap after a run are properties of GC::sweep / destroy / Drop and of Object::free over the managed list: bitvec::BitVec and iterator adapters have no Verus model and CBMC does not finish their symbolic execution even for a universe of three objects with a concrete root set (> 800 s, measured; harnesses kept unregistered in contracts/kani/gc.rs). The fragments that are decidable (constructors register every allocation once; Halt untraces the result; root sets) are reported under C03. The collector of the pinned tree never freed anything and was repaired (known-findings.txt); valgrind runs on the examples are recorded in DESIGN.md but are not part of any check",
     "C16": "quantifies over thread schedules, process histories and build profiles: Kani has no thread support, Verus would need the code rewritten onto its permission types, neither observes two build profiles (DESIGN.md s.5)",
 }
+
+# C05 (no panic, abort or hang) rests on every obligation that checks the panic-freedom of a function which ordinary
+# inputs reach: the comparison operators (a NaN must not panic), the parser's dispatch and operator tables (a token
+# without an operator must not reach Operator::from), the symbol table (its unwrap()s), the generators as whole functions
+for _o in OBLIGATIONS:
+    if "C05" not in _o["props"] and re.match(r"O06\.3\.|O06\.4a\.|O06\.4c\.|O06\.4p$|O07\.|O09\.1w$|O02\.ind$|O17\.1$|O17\.2$|O10\.3m?$", _o["id"]):
+        _o["props"].append("C05")
 
 PROPERTIES = {
     "C17": {
